@@ -6,7 +6,9 @@
      2. ray2d_core_ok_true, ray2d_ok_true, ray2d_1_ok_true
                                                subscripts of _ray2d_core / _ray2d / ray2d (single point)
      3. (RaySafety3d.v)
-     4. shrink_range, shrink_attained, vertex_on_grid_line_2d   (T := R)
+     4. (T := R) shrink_attained, shrink_range, shrink_ge1_inside; vertex_on_grid_line_2d (one iteration, before
+        the grid magnetism) and ray2d_vertices_on_grid_lines (every interior vertex of a returned grid-honouring
+        ray has a coordinate that is exactly a node of the corresponding axis, after the magnetism too)
 
    Method for 2: `while_ok_inv` (Hoare rule for the obligation loop), an invariant `SInv` on the loop state,
    a walk through the obligation term of the body that keeps the equation of every let-bound value
@@ -15,7 +17,7 @@ From Coq Require Import ZArith List Bool Lia Reals Lra PrimFloat.
 From FT.lib Require Import Num Arr ArrLemmas NumArr.
 From FT.gen Require Import Common Interp2d FteikCommon Ray2d.
 From FT.proofs Require Import SafetyTools SafetyInterp Ray2dProofs.
-From FT.proofs Require NumFLaws.
+From FT.proofs Require NumFLaws SSR.
 Import ListNotations.
 Open Scope Z_scope.
 
@@ -453,12 +455,30 @@ Definition SInv (hg : bool) (max_step : Z) (s : St2) : Prop :=
      ge0 z (get (nofZ 0) (s_lower s) [0]) /\ ge0 z (get (nofZ 0) (s_upper s) [0]) /\
      ge0 x (get (nofZ 0) (s_lower s) [1]) /\ ge0 x (get (nofZ 0) (s_upper s) [1])).
 
-Ltac mhook lo up x0 Hx :=
-  lazymatch type of Hx with
-  | _ = u_ray2d_core_v_p1 _ _ _ _ _ _ _ _ _ =>
-      cbv beta zeta iota delta [u_ray2d_core_v_p1 fst snd] in Hx; subst x0
-  | _ => rhook z x lo up x0 Hx
+Ltac mhook lo up x0 Hx := rhook z x lo up x0 Hx.
+
+(* all leading lets at once, their values being evaluated first (initial segment of the core); a single
+   conversion, checked by the kernel at Qed *)
+Ltac zeta_all t :=
+  lazymatch t with
+  | (let x := ?v in @?F x) =>
+      let v' := eval cbv beta zeta iota delta [u_ray2d_core_v_p1 fst snd] in v in
+      let t' := eval cbv beta in (F v') in
+      zeta_all t'
+  | _ => t
   end.
+Ltac zeta_head :=
+  lazymatch goal with
+  | |- ?t = true => let t' := zeta_all t in change_no_check (t' = true)
+  end.
+
+(* outer structure of the core: hull test, then the rest *)
+Lemma core_shape (a b cz cx rest : bool) :
+  a = true -> b = true -> (cz = true -> cx = true -> rest = true) ->
+  a && (let condz := cz in b && (let condx := cx in if negb (condz && condx) then true else rest)) = true.
+Proof.
+  intros -> -> Hr. cbv zeta. cbn [andb]. destruct cz, cx; cbn [andb negb]; auto.
+Qed.
 
 Ltac open_state s Hs :=
   let c := fresh "c" in let d := fresh "d" in let l := fresh "l" in let n := fresh "n" in
@@ -477,7 +497,7 @@ Ltac cell_ge0 Mz Mx :=
   first [ apply (cell_lo_ge0 _ _ _ _ Mz); assumption | apply (cell_hi_ge0 _ _ _ Mz); assumption
         | apply (cell_lo_ge0 _ _ _ _ Mx); assumption | apply (cell_hi_ge0 _ _ _ Mx); assumption ].
 (* ge0 of a recomputed cell boundary stored in lower / upper *)
-Ltac ge0_cell Mz Mx :=
+Ltac ge0_cell Dz Dx Mz Mx :=
   idtac;
   lazymatch goal with
   | |- ge0 _ (get _ ?a [_]) =>
@@ -485,7 +505,7 @@ Ltac ge0_cell Mz Mx :=
       | Ha1 : a = set ?a0 [1] ?B, Ha0 : ?a0 = set ?p [0] ?A, Vp : vec2 ?p |- _ =>
           let G0 := fresh "G0" in let G1 := fresh "G1" in
           rewrite Ha1, Ha0; destruct (get_set2 (nofZ 0) p A B Vp) as [G0 G1]; rewrite ?G0, ?G1;
-          cell_ge0 Mz Mx
+          rewrite ?Dz, ?Dx; cell_ge0 Mz Mx
       end
   end.
 
@@ -506,21 +526,16 @@ Proof.
   intros Hms Hmin.
   pose proof (proj1 Az) as Sz. pose proof (proj1 Ax) as Sx.
   pose proof (dim_0 _ _ _ Sz) as Dz. pose proof (dim_0 _ _ _ Sx) as Dx.
-  cbv beta delta [u_ray2d_core_v_ok]. rewrite Dz, Dx.
-  apply andb_true_intro; split; [apply andb_true_intro; split; inb_solve|].
-  let_intro condz Hcz.
-  apply andb_true_intro; split; [apply andb_true_intro; split; inb_solve|].
-  let_intro condx Hcx.
-  destruct (negb (condz && condx)) eqn:E; [reflexivity|].
-  apply negb_false_iff in E. apply andb_prop in E. destruct E as [Ez Ex]. subst condz condx.
-  apply andb_prop in Ez, Ex. destruct Ez as [Ez _]. destruct Ex as [Ex _].
-  apply hull_ge0 in Ez, Ex.
-  apply andb_true_intro; split; [apply p1_ok_true; [lia|auto]|].
   destruct hg.
   - destruct (Hmin eq_refl) as [Mz Mx].
-    assert (Hzhi : ge0 z (get (nofZ 0) z [nz - 1])) by (apply Mz; lia).
-    assert (Hxhi : ge0 x (get (nofZ 0) x [nx - 1])) by (apply Mx; lia).
-    rwalk ltac:(mhook z x) ltac:(idtac). rewrite ?Dz, ?Dx.
+    assert (Hzhi : ge0 z (get (nofZ 0) z [dim z 0%nat - 1])) by (apply Mz; lia).
+    assert (Hxhi : ge0 x (get (nofZ 0) x [dim x 0%nat - 1])) by (apply Mx; lia).
+    cbv beta delta [u_ray2d_core_v_ok].
+    apply core_shape; [apply andb_true_intro; split; inb_solve ..|].
+    intros Ez Ex. apply andb_prop in Ez, Ex. destruct Ez as [Ez _]. destruct Ex as [Ex _].
+    apply hull_ge0 in Ez, Ex.
+    apply andb_true_intro; split; [apply p1_ok_true; [lia|auto]|].
+    zeta_head.
     pose proof (cell_index_range z nz zend Az ltac:(lia) Ez) as Ri.
     pose proof (cell_index_range x nx xend Ax ltac:(lia) Ex) as Rj.
     apply (loop_ok _ _ _ _ (SInv true max_step)).
@@ -531,7 +546,7 @@ Proof.
       repeat match goal with |- context [get (nofZ 0) (of_list [?a; ?b]) [_]] =>
         let G0 := fresh "G0" in let G1 := fresh "G1" in
         destruct (get_of_list2 (nofZ 0) a b) as [G0 G1]; rewrite ?G0, ?G1; clear G0 G1 end.
-      repeat split; cell_ge0 Mz Mx.
+      rewrite ?Dz, ?Dx. repeat split; cell_ge0 Mz Mx.
     + (* loop condition *)
       intros s Hs. open_state s Hs. cbv beta. rwalk ltac:(mhook z x) ltac:(rleaf0 nz nx).
     + (* loop body *)
@@ -539,11 +554,15 @@ Proof.
       rwalk ltac:(mhook l u) ltac:(rleaf0 nz nx).
     + (* the invariant is preserved *)
       intros s s' Hs Hb. refine (post_elim (SInv true max_step) _ s' _ Hb). clear Hb s'.
-      pose proof Hs as Hs0. open_state s Hs. open_lu Hlu. cbv beta.
-      vwalk ltac:(mhook l u) ltac:(sinv_leaf ltac:(ge0_cell Mz Mx)).
+      open_state s Hs. open_lu Hlu. cbv beta.
+      vwalk ltac:(mhook l u) ltac:(sinv_leaf ltac:(ge0_cell Dz Dx Mz Mx)).
     + (* after the loop *)
       intros s Hs. open_state s Hs. cbv beta. rwalk ltac:(mhook z x) ltac:(rleaf0 nz nx).
-  - rwalk ltac:(mhook z x) ltac:(idtac).
+  - cbv beta delta [u_ray2d_core_v_ok].
+    apply core_shape; [apply andb_true_intro; split; inb_solve ..|].
+    intros _ _.
+    apply andb_true_intro; split; [apply p1_ok_true; [lia|intros; discriminate]|].
+    zeta_head.
     apply (loop_ok _ _ _ _ (SInv false max_step)).
     + unfold SInv. cbn [s_count s_delta s_lower s_nfree s_pcur s_ray s_upper fst snd].
       split; [lia|]. split; [reflexivity|]. split; [apply vec2_of_list|]. split; [apply vec2_full|].
@@ -556,3 +575,758 @@ Proof.
     + intros s Hs. open_state s Hs. cbv beta. rwalk ltac:(mhook z x) ltac:(rleaf0 nz nx).
 Qed.
 End Core2Safe.
+
+(* ---------- _ray2d and the single-point form of ray2d ---------- *)
+Section Wrappers2.
+Context {T : Type} `{Num T}.
+Context {Laws : RayLaws (T := T)}.
+Variables (z x zgrad xgrad : arr T) (nz nx : Z).
+Hypothesis (Az : axisn z nz) (Ax : axisn x nx) (Hnz : 2 <= nz) (Hnx : 2 <= nx).
+Hypothesis (Szg : shape zgrad = [nz; nx]) (Sxg : shape xgrad = [nz; nx]).
+
+Theorem ray2d_ok_true fuel zend xend zsrc xsrc stepsize max_step hg :
+  1 <= max_step -> (hg = true -> axis_min z nz /\ axis_min x nx) ->
+  u_ray2d_v_ok true false fuel z x zgrad xgrad zend xend zsrc xsrc stepsize max_step hg = true.
+Proof.
+  intros Hms Hmin. unfold u_ray2d_v_ok.
+  rewrite (ray2d_core_ok_true z x zgrad xgrad nz nx Az Ax Hnz Hnx Szg Sxg) by assumption. cbn [andb].
+  destruct (u_ray2d_core_v _ _ _ _ _ _ _ _ _ _ _ _) as [[ray count]| |]; cbn [res_ok]; try reflexivity.
+  cbv beta zeta. destruct (_ =? -1); [reflexivity|]. destruct (_ =? -2); reflexivity.
+Qed.
+
+(* ray2d(z, x, zgrad, xgrad, p, src, ...) with a single point p: `ray[count::-1]` takes rows count..0 *)
+Theorem ray2d_1_ok_true fuel (p src : arr T) stepsize max_step hg :
+  shape p = [2] -> shape src = [2] ->
+  1 <= max_step -> (hg = true -> axis_min z nz /\ axis_min x nx) ->
+  ray2d_1_ok true false fuel z x zgrad xgrad p src stepsize max_step hg = true.
+Proof.
+  intros Sp Ss Hms Hmin. unfold ray2d_1_ok.
+  rewrite (ray2d_ok_true fuel) by assumption.
+  unfold obI. rewrite !(inb1_true p 2), !(inb1_true src 2) by (auto; lia). cbn [andb].
+  unfold u_ray2d_v.
+  destruct (u_ray2d_core_v _ _ _ _ _ _ _ _ _ _ _ _) as [[ray count]| |] eqn:Ec; cbn [rbind res_ok];
+    try reflexivity.
+  destruct (ray2d_core_count_range _ _ _ _ _ _ _ _ _ _ _ _ _ _ Ec) as [Hr Hsh].
+  cbv beta zeta. cbn [fst snd].
+  destruct (Z.eqb_spec count (-1)); [reflexivity|]. destruct (Z.eqb_spec count (-2)); [reflexivity|].
+  cbn [res_ok fst snd]. rewrite (dim_0 _ _ _ Hsh).
+  apply andb_true_intro. split; [apply Z.leb_le|apply Z.ltb_lt]; lia.
+Qed.
+End Wrappers2.
+
+(* ---------- the laws hold for the two numeric types in use ---------- *)
+#[global] Instance RayLawsR : RayLaws (T := R).
+Proof. split; [exact le_lt_law_R|]. intros a. simpl. apply Rltb_false. lra. Qed.
+#[global] Instance RayLawsF : RayLaws (T := PrimFloat.float).
+Proof. split; [exact le_lt_law_F|]. intros a. simpl. apply NumFLaws.ltb_irrefl. Qed.
+
+(* ---------- instances for the two numeric types ---------- *)
+Corollary ray2d_core_ok_true_F (z x zgrad xgrad : arr PrimFloat.float) nz nx fuel zend xend zsrc xsrc stepsize
+          max_step hg :
+  axisn z nz -> axisn x nx -> 2 <= nz -> 2 <= nx -> shape zgrad = [nz; nx] -> shape xgrad = [nz; nx] ->
+  1 <= max_step -> (hg = true -> axis_min z nz /\ axis_min x nx) ->
+  u_ray2d_core_v_ok true false fuel z x zgrad xgrad zend xend zsrc xsrc stepsize max_step hg = true.
+Proof. intros. apply (ray2d_core_ok_true z x zgrad xgrad nz nx); assumption. Qed.
+Corollary ray2d_core_ok_true_R (z x zgrad xgrad : arr R) nz nx fuel zend xend zsrc xsrc stepsize max_step hg :
+  axisn z nz -> axisn x nx -> 2 <= nz -> 2 <= nx -> shape zgrad = [nz; nx] -> shape xgrad = [nz; nx] ->
+  1 <= max_step -> (hg = true -> axis_min z nz /\ axis_min x nx) ->
+  u_ray2d_core_v_ok true false fuel z x zgrad xgrad zend xend zsrc xsrc stepsize max_step hg = true.
+Proof. intros. apply (ray2d_core_ok_true z x zgrad xgrad nz nx); assumption. Qed.
+
+(* an ascending real axis satisfies axis_min *)
+Lemma axis_min_of_ascending_R (ax : arr R) n :
+  (forall k, 0 <= k < n -> (get 0%R ax [0%Z] <= get 0%R ax [k])%R) -> axis_min ax n.
+Proof. intros Hasc k Hk. unfold ge0. simpl. apply Rltb_false. apply Hasc. exact Hk. Qed.
+
+(* ---------- the hypotheses are needed ---------- *)
+Local Open Scope float_scope.
+Definition ex_ax : arr float := mkarr [2%Z] [0; 1].
+Definition ex_grad : arr float := mkarr [2%Z; 2%Z] [1; 1; 1; 1].
+Definition ex_zero : arr float := mkarr [2%Z; 2%Z] [0; 0; 0; 0].
+
+(* max_step = 0: the end point is stored in row 0 of an empty buffer *)
+Example ray2d_core_ok_max_step_0_refuted :
+  u_ray2d_core_v_ok true false 5%nat ex_ax ex_ax ex_grad ex_grad 0.5 0.5 0 0 0.25 0%Z false = false.
+Proof. vm_compute. reflexivity. Qed.
+Example ray2d_core_ok_max_step_1 :
+  u_ray2d_core_v_ok true false 5%nat ex_ax ex_ax ex_grad ex_grad 0.5 0.5 0 0 0.25 1%Z false = true.
+Proof. vm_compute. reflexivity. Qed.
+
+(* honor_grid with an axis whose second node is (slightly) below the first one: the grid magnetism moves the
+   point below z[0] and the cell index becomes -1 *)
+Definition ex_bad_ax : arr float := mkarr [3%Z] [0; -0x1p-30; 1].
+Definition ex_grad32 : arr float := mkarr [3%Z; 2%Z] [1; 1; 1; 1; 1; 1].
+Definition ex_zero32 : arr float := mkarr [3%Z; 2%Z] [0; 0; 0; 0; 0; 0].
+Example ray2d_core_ok_axis_min_refuted :
+  u_ray2d_core_v_ok true false 5%nat ex_bad_ax ex_ax ex_grad32 ex_zero32 0.5 0.5 0.5 0 0.375 10%Z true = false.
+Proof. vm_compute. reflexivity. Qed.
+Example ray2d_core_ok_axis_min_hyps :
+  axisn ex_bad_ax 3 /\ axisn ex_ax 2 /\ shape ex_grad32 = [3%Z; 2%Z] /\ shape ex_zero32 = [3%Z; 2%Z].
+Proof. repeat split. Qed.
+Local Close Scope float_scope.
+
+(* ------------------------------------------------------------------------------------------ *)
+(* 4. exact arithmetic: range of `shrink`, and where its minimum is attained                    *)
+(* ------------------------------------------------------------------------------------------ *)
+Section ShrinkR.
+Local Open Scope R_scope.
+
+(* the selected quotients, on lists *)
+Definition qlist (lp lb ld : list R) (lm : list bool) : list R :=
+  zipw Rdiv (zipw Rminus (mask_list lp lm) (mask_list lb lm)) (mask_list ld lm).
+
+Lemma dat_quot (p b d : arr R) (m : arr bool) : dat (quot p b d m) = qlist (dat p) (dat b) (dat d) (dat m).
+Proof. reflexivity. Qed.
+
+Lemma mask_list_nil_r {A} (l : list A) : mask_list l [] = [].
+Proof. destruct l; reflexivity. Qed.
+
+Lemma zipw_nil_r {A B C} (f : A -> B -> C) (l : list A) : zipw f l [] = [].
+Proof. destruct l; reflexivity. Qed.
+
+(* every selected quotient comes from a selected position *)
+Lemma qlist_In (lp lb ld : list R) : forall lm q,
+  In q (qlist lp lb ld lm) ->
+  exists k : nat, (k < length lp)%nat /\ (k < length lb)%nat /\ (k < length ld)%nat /\
+                  nth k lm false = true /\ q = (nth k lp 0 - nth k lb 0) / nth k ld 0.
+Proof.
+  revert lb ld. induction lp as [|p lp IH]; intros lb ld lm q Hq.
+  - destruct lm; contradiction.
+  - destruct lm as [|m lm]; [contradiction|].
+    destruct lb as [|b lb].
+    { unfold qlist in Hq. destruct m; cbn [mask_list] in Hq; rewrite zipw_nil_r in Hq; contradiction. }
+    destruct ld as [|d ld].
+    { unfold qlist in Hq. destruct m; cbn [mask_list] in Hq; rewrite zipw_nil_r in Hq; contradiction. }
+    destruct m.
+    + unfold qlist in Hq. cbn [mask_list zipw] in Hq. destruct Hq as [<-|Hq].
+      * exists 0%nat. cbn. repeat split; try lia.
+      * destruct (IH lb ld lm q Hq) as (k & H1 & H2 & H3 & H4 & H5).
+        exists (Datatypes.S k). cbn. repeat split; try lia; assumption.
+    + unfold qlist in Hq. cbn [mask_list] in Hq.
+      destruct (IH lb ld lm q Hq) as (k & H1 & H2 & H3 & H4 & H5).
+      exists (Datatypes.S k). cbn. repeat split; try lia; assumption.
+Qed.
+
+Lemma nth_zipw {A B C} (f : A -> B -> C) da db dc : forall l1 l2 k,
+  (k < length l1)%nat -> (k < length l2)%nat -> nth k (zipw f l1 l2) dc = f (nth k l1 da) (nth k l2 db).
+Proof.
+  induction l1 as [|a l1 IH]; intros [|b l2] [|k] H1 H2; cbn in *; try lia; auto. apply IH; lia.
+Qed.
+
+Lemma nth_zipw_true {A B} (f : A -> B -> bool) : forall l1 l2 k,
+  nth k (zipw f l1 l2) false = true -> (k < length l1)%nat /\ (k < length l2)%nat.
+Proof.
+  induction l1 as [|a l1 IH]; intros [|b l2] [|k] Hk; cbn in *; try discriminate; try lia.
+  apply IH in Hk. lia.
+Qed.
+
+(* the minimum of a non-empty list is one of its entries *)
+Lemma fold_pymin2_In (t : list R) : forall e, In (fold_left pymin2 t e) (e :: t).
+Proof.
+  induction t as [|a t IH]; intros e; cbn [fold_left]; [left; reflexivity|].
+  destruct (IH (pymin2 e a)) as [E|E].
+  - rewrite <- E. unfold pymin2. destruct (nltb a e); [right; left|left]; reflexivity.
+  - right; right; exact E.
+Qed.
+Lemma amin_In (a : arr R) : dat a <> [] -> In (amin a) (dat a).
+Proof. unfold amin. destruct (dat a) as [|e t]; [congruence|]. intros _. apply fold_pymin2_In. Qed.
+
+Lemma pymin2_R_cases (a b : R) : (pymin2 a b = a \/ pymin2 a b = b).
+Proof. unfold pymin2. destruct (nltb b a); auto. Qed.
+
+(* one selected position of the lower / upper mask, inside the box *)
+Lemma low_quot (p d l : R) : l <= p -> Rltb (p - d) l = true ->
+  0 < d /\ 0 <= (p - l) / d < 1 /\ p - (p - l) / d * d = l.
+Proof.
+  intros Hb Hm. apply Rltb_true in Hm. assert (Hd : 0 < d) by lra.
+  pose proof (Rinv_0_lt_compat d Hd) as Hi. assert (E : d * / d = 1) by (field; lra).
+  split; [exact Hd|]. unfold Rdiv. split; [split; nra|]. field. lra.
+Qed.
+Lemma up_quot (p d u : R) : p <= u -> Rltb u (p - d) = true ->
+  d < 0 /\ 0 <= (p - u) / d < 1 /\ p - (p - u) / d * d = u.
+Proof.
+  intros Hb Hm. apply Rltb_true in Hm. assert (Hd : d < 0) by lra.
+  pose proof (Rinv_lt_0_compat d Hd) as Hi. assert (E : d * / d = 1) by (field; lra).
+  split; [exact Hd|]. unfold Rdiv. split; [split; nra|]. field. lra.
+Qed.
+
+Lemma Forall2_nth_Rle : forall (l1 l2 : list R) k, Forall2 Rle l1 l2 -> (k < length l1)%nat ->
+  nth k l1 0 <= nth k l2 0.
+Proof.
+  intros l1 l2 k HF. revert k. induction HF as [|a b l1 l2 Hab HF IH]; intros [|k] Hk; cbn in *; try lia; auto.
+  apply IH. lia.
+Qed.
+
+(* description of a value returned through one of the two masks *)
+Definition at_low (lp ld ll : list R) (q : R) : Prop :=
+  exists k : nat, (k < length lp)%nat /\ (k < length ld)%nat /\ (k < length ll)%nat /\
+    0 < nth k ld 0 /\ 0 <= q < 1 /\ q = (nth k lp 0 - nth k ll 0) / nth k ld 0 /\
+    nth k lp 0 - q * nth k ld 0 = nth k ll 0.
+Definition at_up (lp ld lu : list R) (q : R) : Prop :=
+  exists k : nat, (k < length lp)%nat /\ (k < length ld)%nat /\ (k < length lu)%nat /\
+    nth k ld 0 < 0 /\ 0 <= q < 1 /\ q = (nth k lp 0 - nth k lu 0) / nth k ld 0 /\
+    nth k lp 0 - q * nth k ld 0 = nth k lu 0.
+
+Lemma low_mask_In (lp ld ll : list R) q :
+  Forall2 Rle ll lp ->
+  In q (qlist lp ll ld (zipw Rltb (zipw Rminus lp ld) ll)) -> at_low lp ld ll q.
+Proof.
+  intros Hbox Hq. destruct (qlist_In _ _ _ _ _ Hq) as (k & K1 & K2 & K3 & Km & ->).
+  pose proof (Forall2_nth_Rle _ _ k Hbox K2) as Hle.
+  rewrite (nth_zipw Rltb 0 0 false) in Km by (rewrite ?zipw_length; lia).
+  rewrite (nth_zipw Rminus 0 0 0) in Km by lia.
+  destruct (low_quot _ _ _ Hle Km) as (Hd & Hr & He).
+  exists k. repeat split; try assumption; apply Hr.
+Qed.
+Lemma up_mask_In (lp ld lu : list R) q :
+  Forall2 Rle lp lu ->
+  In q (qlist lp lu ld (zipw ngtb (zipw Rminus lp ld) lu)) -> at_up lp ld lu q.
+Proof.
+  intros Hbox Hq. destruct (qlist_In _ _ _ _ _ Hq) as (k & K1 & K2 & K3 & Km & ->).
+  pose proof (Forall2_nth_Rle _ _ k Hbox K1) as Hle.
+  rewrite (nth_zipw ngtb 0 0 false) in Km by (rewrite ?zipw_length; lia).
+  rewrite (nth_zipw Rminus 0 0 0) in Km by lia.
+  destruct (up_quot _ _ _ Hle Km) as (Hd & Hr & He).
+  exists k. repeat split; try assumption; apply Hr.
+Qed.
+
+Lemma quot_nonempty (p b d : arr R) (m : arr bool) :
+  (length (dat m) <= length (dat p))%nat -> (length (dat m) <= length (dat b))%nat ->
+  (length (dat m) <= length (dat d))%nat -> aany m = true -> dat (quot p b d m) <> [].
+Proof.
+  intros Hp Hb Hd Ha. destruct (quot_obligations p b d m Hp Hb Hd) as (_ & _ & Hq).
+  specialize (Hq Ha). apply Z.ltb_lt in Hq. unfold alen in Hq. intros E. rewrite E in Hq. cbn in Hq. lia.
+Qed.
+
+(* The value of shrink when the current point lies in the box lower <= pcur <= upper: either no component of
+   pcur - delta leaves the box and the factor is 1, or the factor is one of the quotients: it lies in [0, 1)
+   and moves the corresponding component exactly onto the boundary it was about to cross. *)
+Theorem shrink_attained (pcur delta lower upper : arr R) :
+  Forall2 Rle (dat lower) (dat pcur) -> Forall2 Rle (dat pcur) (dat upper) ->
+  let fac := FteikCommon.shrink pcur delta lower upper in
+  (fac = 1 /\ aany (amap2 nltb (amap2 nsub pcur delta) lower) = false /\
+              aany (amap2 ngtb (amap2 nsub pcur delta) upper) = false) \/
+  at_low (dat pcur) (dat delta) (dat lower) fac \/ at_up (dat pcur) (dat delta) (dat upper) fac.
+Proof.
+  intros Hl Hu.
+  destruct (shrink_mask_lengths pcur delta lower upper) as [(L1 & L2 & L3) (U1 & U2 & U3)].
+  cbv zeta in L1, L2, L3, U1, U2, U3.
+  pose proof (quot_nonempty pcur lower delta _ L1 L2 L3) as NL.
+  pose proof (quot_nonempty pcur upper delta _ U1 U2 U3) as NU.
+  assert (AL : forall q, In q (dat (quot pcur lower delta (amap2 nltb (amap2 nsub pcur delta) lower))) ->
+                         at_low (dat pcur) (dat delta) (dat lower) q).
+  { intros q Hq. rewrite dat_quot in Hq. apply low_mask_In; assumption. }
+  assert (AU : forall q, In q (dat (quot pcur upper delta (amap2 ngtb (amap2 nsub pcur delta) upper))) ->
+                         at_up (dat pcur) (dat delta) (dat upper) q).
+  { intros q Hq. rewrite dat_quot in Hq. apply up_mask_In; assumption. }
+  unfold quot in *. unfold FteikCommon.shrink. cbv zeta.
+  destruct (aany (amap2 nltb (amap2 nsub pcur delta) lower)) eqn:El;
+  destruct (aany (amap2 ngtb (amap2 nsub pcur delta) upper)) eqn:Eu; cbn [andb negb].
+  - match goal with |- context [pymin2 ?a ?b] => destruct (pymin2_R_cases a b) as [E|E]; rewrite E end.
+    + right; left. apply AL, amin_In, NL. reflexivity.
+    + right; right. apply AU, amin_In, NU. reflexivity.
+  - right; left. apply AL, amin_In, NL. reflexivity.
+  - right; right. apply AU, amin_In, NU. reflexivity.
+  - left. repeat split; reflexivity.
+Qed.
+
+Lemma Forall2_len {A B} (R : A -> B -> Prop) (l1 : list A) (l2 : list B) :
+  Forall2 R l1 l2 -> length l1 = length l2.
+Proof. induction 1; cbn; congruence. Qed.
+
+Lemma existsb_false_nth (m : list bool) : forall k, existsb (fun b => b) m = false -> nth k m false = false.
+Proof.
+  induction m as [|b m IH]; intros [|k] Hm; cbn in *; try reflexivity.
+  - destruct b; [discriminate|reflexivity].
+  - apply IH. destruct b; [discriminate|exact Hm].
+Qed.
+
+(* a factor >= 1 means that the full step stays in the box *)
+Theorem shrink_ge1_inside (pcur delta lower upper : arr R) :
+  Forall2 Rle (dat lower) (dat pcur) -> Forall2 Rle (dat pcur) (dat upper) ->
+  1 <= FteikCommon.shrink pcur delta lower upper ->
+  FteikCommon.shrink pcur delta lower upper = 1 /\
+  forall k : nat, (k < length (dat pcur))%nat -> (k < length (dat delta))%nat ->
+    nth k (dat lower) 0 <= nth k (dat pcur) 0 - nth k (dat delta) 0 <= nth k (dat upper) 0.
+Proof.
+  intros Hl Hu Hge. destruct (shrink_attained pcur delta lower upper Hl Hu) as [(E & Ml & Mu)|[(k & H)|(k & H)]];
+    [|lra|lra].
+  split; [exact E|]. intros k Kp Kd.
+  pose proof (Forall2_len _ _ _ Hl) as LL. pose proof (Forall2_len _ _ _ Hu) as LU.
+  unfold aany in Ml, Mu. cbn [dat amap2] in Ml, Mu.
+  apply (existsb_false_nth _ k) in Ml. apply (existsb_false_nth _ k) in Mu.
+  rewrite (nth_zipw nltb 0 0 false) in Ml by (rewrite ?zipw_length; lia).
+  rewrite (nth_zipw ngtb 0 0 false) in Mu by (rewrite ?zipw_length; lia).
+  rewrite (nth_zipw nsub 0 0 0) in Ml, Mu by lia.
+  cbn [nltb ngtb nsub NumR] in Ml, Mu. unfold ngtb in Mu. cbn [nltb NumR] in Mu.
+  apply Rltb_false in Ml, Mu. lra.
+Qed.
+
+Theorem shrink_range (pcur delta lower upper : arr R) :
+  Forall2 Rle (dat lower) (dat pcur) -> Forall2 Rle (dat pcur) (dat upper) ->
+  0 <= FteikCommon.shrink pcur delta lower upper <= 1.
+Proof.
+  intros Hl Hu. destruct (shrink_attained pcur delta lower upper Hl Hu) as [(E & _)|[(k & H)|(k & H)]].
+  - rewrite E. lra.
+  - lra.
+  - lra.
+Qed.
+
+(* the 2-vector form used by the ray tracer *)
+Lemma vec2_Forall2 (a b : arr R) :
+  vec2 a -> vec2 b -> get 0 a [0%Z] <= get 0 b [0%Z] -> get 0 a [1%Z] <= get 0 b [1%Z] ->
+  Forall2 Rle (dat a) (dat b).
+Proof.
+  intros [Sa La] [Sb Lb]. destruct a as [sa la], b as [sb lb]. cbn in *. subst sa sb.
+  destruct la as [|a0 [|a1 [|]]]; try discriminate. destruct lb as [|b0 [|b1 [|]]]; try discriminate.
+  unfold get, flat. cbn. intros H0 H1. constructor; [exact H0|]. constructor; [exact H1|]. constructor.
+Qed.
+
+Corollary shrink_range_2d (pcur delta lower upper : arr R) :
+  vec2 pcur -> vec2 lower -> vec2 upper ->
+  get 0 lower [0%Z] <= get 0 pcur [0%Z] <= get 0 upper [0%Z] ->
+  get 0 lower [1%Z] <= get 0 pcur [1%Z] <= get 0 upper [1%Z] ->
+  0 <= FteikCommon.shrink pcur delta lower upper <= 1.
+Proof. intros Vp Vl Vu H0 H1. apply shrink_range; apply vec2_Forall2; tauto. Qed.
+End ShrinkR.
+
+(* ------------------------------------------------------------------------------------------ *)
+(* 4b. grid-honouring mode, exact arithmetic: every stored vertex lies on a grid line           *)
+(* ------------------------------------------------------------------------------------------ *)
+Section GridR.
+Local Open Scope R_scope.
+
+(* v is a node of the axis *)
+Definition on_grid (ax : arr R) (n : Z) (v : R) : Prop := exists i : Z, (0 <= i < n)%Z /\ v = get 0 ax [i].
+(* every node lies between the first and the last one (any ascending axis) *)
+Definition axis_hull (ax : arr R) (n : Z) : Prop :=
+  forall k : Z, (0 <= k < n)%Z -> get 0 ax [0%Z] <= get 0 ax [k] <= get 0 ax [(n - 1)%Z].
+Definition in_hull (ax : arr R) (n : Z) (v : R) : Prop := get 0 ax [0%Z] <= v <= get 0 ax [(n - 1)%Z].
+
+Lemma on_grid_hull ax n v : axis_hull ax n -> on_grid ax n v -> in_hull ax n v.
+Proof. intros Hh (i & Hi & ->). apply Hh. exact Hi. Qed.
+
+Lemma ge0_R (ax : arr R) (v : R) : ge0 ax v <-> get 0 ax [0%Z] <= v.
+Proof. unfold ge0. cbn [nltb nofZ NumR]. apply Rltb_false. Qed.
+
+Lemma clamp_R_in (lo hi a : R) : lo <= hi -> lo <= pymin2 (pymax2 a lo) hi <= hi.
+Proof.
+  intros Hle. unfold pymin2, pymax2. cbn [nltb NumR].
+  destruct (Rltb a lo) eqn:E1; [apply Rltb_true in E1|apply Rltb_false in E1];
+    match goal with |- context [Rltb ?u ?v] => destruct (Rltb u v) eqn:E2 end;
+    try (apply Rltb_true in E2); try (apply Rltb_false in E2); lra.
+Qed.
+Lemma clamp_R_id (lo hi a : R) : lo <= a <= hi -> pymin2 (pymax2 a lo) hi = a.
+Proof.
+  intros Ha. unfold pymin2, pymax2. cbn [nltb NumR].
+  destruct (Rltb a lo) eqn:E1; [apply Rltb_true in E1; lra|].
+  destruct (Rltb hi a) eqn:E2; [apply Rltb_true in E2; lra|reflexivity].
+Qed.
+
+(* the cell boundaries recomputed from a coordinate inside the hull *)
+Lemma cell_facts_R (ax : arr R) n q :
+  axisn ax n -> (1 <= n)%Z -> in_hull ax n q ->
+  let i := (searchsorted_right ax q - 1)%Z in
+  let lo := if neqb q (get (nofZ 0) ax [i]) then get (nofZ 0) ax [Z.max (i - 1) 0] else get (nofZ 0) ax [i] in
+  let up := get (nofZ 0) ax [Z.min (i + 1) (dim ax 0%nat - 1)] in
+  on_grid ax n lo /\ on_grid ax n up /\ lo <= q <= up.
+Proof.
+  intros A Hn [Hlo Hhi] i lo up. destruct A as [S L].
+  assert (Dn : dim ax 0%nat = n) by (apply (dim_0 _ _ _ S)).
+  assert (Ri : (0 <= i <= n - 1)%Z).
+  { apply (cell_index_range ax n q (conj S L)); [lia|]. apply ge0_R. exact Hlo. }
+  assert (Below : forall k : Z, (0 <= k <= i)%Z -> get 0 ax [k] <= q).
+  { intros k Hk. apply Rltb_false.
+    assert (Hk' : (0 <= k < searchsorted_right ax q)%Z) by (unfold i in Hk; lia).
+    exact (SSR.ssr_below 0 ax n q k (conj S L) Hk'). }
+  unfold lo, up. cbn [nofZ NumR]. rewrite Dn. split; [|split; [|split]].
+  - destruct (neqb _ _); eexists; (split; [|reflexivity]); lia.
+  - eexists; (split; [|reflexivity]); lia.
+  - destruct (neqb _ _); apply Below; lia.
+  - destruct (Z_lt_le_dec (i + 1) n) as [Hlt|Hge].
+    + replace (Z.min (i + 1) (n - 1)) with (searchsorted_right ax q) by (unfold i in *; lia).
+      apply Rlt_le. apply Rltb_true.
+      assert (Hlt' : (searchsorted_right ax q < n)%Z) by (unfold i in Hlt; lia).
+      exact (SSR.ssr_at 0 ax n q (conj S L) Hlt').
+    + replace (Z.min (i + 1) (n - 1)) with (n - 1)%Z by lia. exact Hhi.
+Qed.
+
+Lemma get_nth2 (a : arr R) : vec2 a ->
+  get 0 a [0%Z] = nth 0 (dat a) 0 /\ get 0 a [1%Z] = nth 1 (dat a) 0.
+Proof.
+  intros [S L]. destruct a as [sa la]. cbn in *. subst sa.
+  destruct la as [|a0 [|a1 [|]]]; try discriminate. split; reflexivity.
+Qed.
+
+Lemma step_point (p d : arr R) (fac : R) : vec2 p -> vec2 d ->
+  let p0 := amap2 nsub p (amap (fun e : R => nmul fac e) d) in
+  vec2 p0 /\ get 0 p0 [0%Z] = get 0 p [0%Z] - fac * get 0 d [0%Z] /\
+  get 0 p0 [1%Z] = get 0 p [1%Z] - fac * get 0 d [1%Z].
+Proof.
+  intros [Sp Lp] [Sd Ld] p0. destruct p as [sp lp], d as [sd ld]. cbn in *. subst sp sd.
+  destruct lp as [|a0 [|a1 [|]]]; try discriminate. destruct ld as [|b0 [|b1 [|]]]; try discriminate.
+  repeat split.
+Qed.
+
+Variables (z x : arr R) (nz nx : Z) (zend xend : R) (max_step : Z).
+Hypothesis (Az : axisn z nz) (Ax : axisn x nx) (Hnz : (1 <= nz)%Z) (Hnx : (1 <= nx)%Z).
+Hypothesis (Hz : axis_hull z nz) (Hx : axis_hull x nx).
+
+Definition on_line (r : arr R) (k : Z) : Prop :=
+  on_grid z nz (get 0 r [k; 0%Z]) \/ on_grid x nx (get 0 r [k; 1%Z]).
+
+Definition GInv (s : @St2 R) : Prop :=
+  ray_ok zend xend max_step s /\ vec2 (s_pcur s) /\ vec2 (s_delta s) /\ vec2 (s_lower s) /\ vec2 (s_upper s) /\
+  on_grid z nz (get 0 (s_lower s) [0%Z]) /\ on_grid z nz (get 0 (s_upper s) [0%Z]) /\
+  on_grid x nx (get 0 (s_lower s) [1%Z]) /\ on_grid x nx (get 0 (s_upper s) [1%Z]) /\
+  get 0 (s_lower s) [0%Z] <= get 0 (s_pcur s) [0%Z] <= get 0 (s_upper s) [0%Z] /\
+  get 0 (s_lower s) [1%Z] <= get 0 (s_pcur s) [1%Z] <= get 0 (s_upper s) [1%Z] /\
+  (forall k : Z, (1 <= k < s_count s)%Z -> on_line (s_ray s) k).
+
+Lemma Dz : dim z 0%nat = nz. Proof. apply (dim_0 _ _ _ (proj1 Az)). Qed.
+Lemma Dx : dim x 0%nat = nx. Proof. apply (dim_0 _ _ _ (proj1 Ax)). Qed.
+
+(* the two clamps *)
+Lemma clamp2_R (p0 : arr R) : vec2 p0 ->
+  let p1 := set p0 [0%Z] (pymin2 (pymax2 (get (nofZ 0) p0 [0%Z]) (get (nofZ 0) z [0%Z]))
+                                 (get (nofZ 0) z [(dim z 0%nat - 1)%Z])) in
+  let p2 := set p1 [1%Z] (pymin2 (pymax2 (get (nofZ 0) p1 [1%Z]) (get (nofZ 0) x [0%Z]))
+                                 (get (nofZ 0) x [(dim x 0%nat - 1)%Z])) in
+  vec2 p2 /\
+  get 0 p2 [0%Z] = pymin2 (pymax2 (get 0 p0 [0%Z]) (get 0 z [0%Z])) (get 0 z [(nz - 1)%Z]) /\
+  get 0 p2 [1%Z] = pymin2 (pymax2 (get 0 p0 [1%Z]) (get 0 x [0%Z])) (get 0 x [(nx - 1)%Z]).
+Proof.
+  intros Vp p1 p2. unfold p2, p1. clear p1 p2. cbn [nofZ NumR]. rewrite Dz, Dx.
+  split; [apply vec2_set, vec2_set, Vp|].
+  match goal with |- context [set (set p0 [0%Z] ?a) [1%Z] ?b] =>
+    destruct (get_set2 0 p0 a b Vp) as [G0 G1]; rewrite G0, G1 end.
+  split; [reflexivity|].
+  destruct (get_set_vec2 0 p0 (pymin2 (pymax2 (get 0 p0 [0%Z]) (get 0 z [0%Z])) (get 0 z [(nz - 1)%Z])) Vp)
+    as (_ & E & _). rewrite E. reflexivity.
+Qed.
+
+Lemma hull_le ax n : (1 <= n)%Z -> axis_hull ax n -> get 0 ax [0%Z] <= get 0 ax [(n - 1)%Z].
+Proof. intros Hn Hh. apply (Hh 0%Z). lia. Qed.
+
+(* The vertex computed by an iteration with fac < 1, BEFORE the 1e-8 grid magnetism: on the axis that attains the
+   minimum in shrink its coordinate is exactly the lower or the upper boundary of the current cell. *)
+Lemma vertex_on_grid_line_2d (p d l u : arr R) (fac : R) (p0 p1 p2 : arr R) :
+  vec2 p -> vec2 d -> vec2 l -> vec2 u ->
+  get 0 l [0%Z] <= get 0 p [0%Z] <= get 0 u [0%Z] -> get 0 l [1%Z] <= get 0 p [1%Z] <= get 0 u [1%Z] ->
+  in_hull z nz (get 0 l [0%Z]) -> in_hull z nz (get 0 u [0%Z]) ->
+  in_hull x nx (get 0 l [1%Z]) -> in_hull x nx (get 0 u [1%Z]) ->
+  fac = FteikCommon.shrink p d l u -> fac < 1 ->
+  p0 = amap2 nsub p (amap (fun e : R => nmul fac e) d) ->
+  p1 = set p0 [0%Z] (pymin2 (pymax2 (get (nofZ 0) p0 [0%Z]) (get (nofZ 0) z [0%Z]))
+                            (get (nofZ 0) z [(dim z 0%nat - 1)%Z])) ->
+  p2 = set p1 [1%Z] (pymin2 (pymax2 (get (nofZ 0) p1 [1%Z]) (get (nofZ 0) x [0%Z]))
+                            (get (nofZ 0) x [(dim x 0%nat - 1)%Z])) ->
+  0 <= fac /\
+  ((get 0 p2 [0%Z] = get 0 l [0%Z] \/ get 0 p2 [0%Z] = get 0 u [0%Z]) \/
+   (get 0 p2 [1%Z] = get 0 l [1%Z] \/ get 0 p2 [1%Z] = get 0 u [1%Z])).
+Proof.
+  intros Vp Vd Vl Vu B0 B1 Hl0 Hu0 Hl1 Hu1 Efac Hfac Ep0 Ep1 Ep2.
+  unfold in_hull in Hl0, Hu0, Hl1, Hu1.
+  destruct (step_point p d fac Vp Vd) as (Vp0 & P00 & P01). rewrite <- Ep0 in Vp0, P00, P01.
+  destruct (clamp2_R p0 Vp0) as (Vp2 & P20 & P21). cbv zeta in Vp2, P20, P21.
+  rewrite <- Ep1 in Vp2, P20, P21. rewrite <- Ep2 in Vp2, P20, P21.
+  destruct (get_nth2 p Vp) as [Np0 Np1]. destruct (get_nth2 d Vd) as [Nd0 Nd1].
+  destruct (get_nth2 l Vl) as [Nl0 Nl1]. destruct (get_nth2 u Vu) as [Nu0 Nu1].
+  assert (Fl : Forall2 Rle (dat l) (dat p)) by (apply vec2_Forall2; tauto).
+  assert (Fu : Forall2 Rle (dat p) (dat u)) by (apply vec2_Forall2; tauto).
+  split. { rewrite Efac. apply (shrink_range p d l u Fl Fu). }
+  destruct (shrink_attained p d l u Fl Fu) as [(E & _)|[(k & K1 & _ & _ & _ & _ & _ & Ke)|(k & K1 & _ & _ & _ & _ & _ & Ke)]];
+    rewrite <- Efac in *; [lra| |].
+  - rewrite (proj2 Vp) in K1. destruct k as [|[|k]]; [| |lia].
+    + left; left. rewrite P20, P00, Np0, Nd0, Ke, <- Nl0. apply clamp_R_id. lra.
+    + right; left. rewrite P21, P01, Np1, Nd1, Ke, <- Nl1. apply clamp_R_id. lra.
+  - rewrite (proj2 Vp) in K1. destruct k as [|[|k]]; [| |lia].
+    + left; right. rewrite P20, P00, Np0, Nd0, Ke, <- Nu0. apply clamp_R_id. lra.
+    + right; right. rewrite P21, P01, Np1, Nd1, Ke, <- Nu1. apply clamp_R_id. lra.
+Qed.
+
+(* a stored vertex *)
+Lemma vertex_step c d0 n0 d l p r u fac p0 p1 p2 p3 body i j l1 l2 u1 u2 r' :
+  GInv (c, d0, l, n0, p, r, u) ->
+  r' = set_sub r [c] p3 ->
+  u2 = set u1 [1%Z] (get (nofZ 0) x [Z.min (j + 1) (dim x 0%nat - 1)]) ->
+  u1 = set u [0%Z] (get (nofZ 0) z [Z.min (i + 1) (dim z 0%nat - 1)]) ->
+  l2 = set l1 [1%Z] (if neqb (get (nofZ 0) p3 [1%Z]) (get (nofZ 0) x [j])
+                     then get (nofZ 0) x [Z.max (j - 1) 0] else get (nofZ 0) x [j]) ->
+  l1 = set l [0%Z] (if neqb (get (nofZ 0) p3 [0%Z]) (get (nofZ 0) z [i])
+                    then get (nofZ 0) z [Z.max (i - 1) 0] else get (nofZ 0) z [i]) ->
+  j = (searchsorted_right x (get (nofZ 0) p3 [1%Z]) - 1)%Z ->
+  i = (searchsorted_right z (get (nofZ 0) p3 [0%Z]) - 1)%Z ->
+  p3 = for_list (pyrange 0 2 1) body p2 ->
+  p2 = set p1 [1%Z] (pymin2 (pymax2 (get (nofZ 0) p1 [1%Z]) (get (nofZ 0) x [0%Z]))
+                            (get (nofZ 0) x [(dim x 0%nat - 1)%Z])) ->
+  p1 = set p0 [0%Z] (pymin2 (pymax2 (get (nofZ 0) p0 [0%Z]) (get (nofZ 0) z [0%Z]))
+                            (get (nofZ 0) z [(dim z 0%nat - 1)%Z])) ->
+  p0 = amap2 nsub p (amap (fun e : R => nmul fac e) d) ->
+  fac = FteikCommon.shrink p d l u ->
+  nltb fac (nofZ 1) = true ->
+  vec2 d -> magnet_body l u body -> (c < max_step)%Z ->
+  GInv ((c + 1)%Z, d, l2, 0%Z, p3, r', u2).
+Proof.
+  intros G Er Eu2 Eu1 El2 El1 Ej Ei Ep3 Ep2 Ep1 Ep0 Efac Hfac Vd Hb Hlt.
+  pose proof G as (Rok & Vp & _ & Vl & Vu & Gl0 & Gu0 & Gl1 & Gu1 & B0 & B1 & Rows).
+  cbn [s_count s_delta s_lower s_nfree s_pcur s_ray s_upper fst snd] in *.
+  pose proof (on_grid_hull _ _ _ Hz Gl0) as Hl0. pose proof (on_grid_hull _ _ _ Hz Gu0) as Hu0.
+  pose proof (on_grid_hull _ _ _ Hx Gl1) as Hl1. pose proof (on_grid_hull _ _ _ Hx Gu1) as Hu1.
+  unfold in_hull in Hl0, Hu0, Hl1, Hu1.
+  pose proof (hull_le z nz Hnz Hz) as Zle. pose proof (hull_le x nx Hnx Hx) as Xle.
+  cbn [nltb nofZ NumR] in Hfac. apply Rltb_true in Hfac.
+  (* the point before clamping *)
+  destruct (step_point p d fac Vp Vd) as (Vp0 & P00 & P01). rewrite <- Ep0 in Vp0, P00, P01.
+  (* the clamps *)
+  destruct (clamp2_R p0 Vp0) as (Vp2 & P20 & P21). cbv zeta in Vp2, P20, P21.
+  rewrite <- Ep1 in Vp2, P20, P21. rewrite <- Ep2 in Vp2, P20, P21.
+  pose proof (clamp_R_in (get 0 z [0%Z]) (get 0 z [(nz - 1)%Z]) (get 0 p0 [0%Z]) Zle) as C0.
+  pose proof (clamp_R_in (get 0 x [0%Z]) (get 0 x [(nx - 1)%Z]) (get 0 p0 [1%Z]) Xle) as C1.
+  rewrite <- P20 in C0. rewrite <- P21 in C1.
+  (* magnetism *)
+  assert (Vp3 : vec2 p3).
+  { rewrite Ep3. apply vec2_for_list; [|exact Vp2]. intros ix q Hq.
+    destruct (Hb ix q) as [E|[E|E]]; rewrite E; [exact Hq|apply vec2_set; exact Hq|apply vec2_set; exact Hq]. }
+  destruct (magnet_for_list l u body p2 Hb Vp2) as [M0 M1]. rewrite <- Ep3 in M0, M1.
+  unfold magnet_of in M0, M1. cbn [nofZ NumR] in M0, M1.
+  assert (H30 : in_hull z nz (get 0 p3 [0%Z])).
+  { unfold in_hull. destruct M0 as [E|[E|E]]; rewrite E; lra. }
+  assert (H31 : in_hull x nx (get 0 p3 [1%Z])).
+  { unfold in_hull. destruct M1 as [E|[E|E]]; rewrite E; lra. }
+  assert (OnL : on_grid z nz (get 0 p3 [0%Z]) \/ on_grid x nx (get 0 p3 [1%Z])).
+  { destruct (vertex_on_grid_line_2d p d l u fac p0 p1 p2 Vp Vd Vl Vu B0 B1 Hl0 Hu0 Hl1 Hu1 Efac Hfac Ep0 Ep1 Ep2)
+      as [_ [[A|A]|[A|A]]].
+    - left. destruct M0 as [E|[E|E]]; rewrite E, ?A; assumption.
+    - left. destruct M0 as [E|[E|E]]; rewrite E, ?A; assumption.
+    - right. destruct M1 as [E|[E|E]]; rewrite E, ?A; assumption.
+    - right. destruct M1 as [E|[E|E]]; rewrite E, ?A; assumption. }
+  (* the new cell *)
+  pose proof (cell_facts_R z nz (get 0 p3 [0%Z]) Az Hnz H30) as Cz.
+  pose proof (cell_facts_R x nx (get 0 p3 [1%Z]) Ax Hnx H31) as Cx.
+  cbv zeta in Cz, Cx. cbn [nofZ NumR] in Cz, Cx, Ei, Ej, El1, El2, Eu1, Eu2.
+  rewrite <- Ei in Cz. rewrite <- Ej in Cx.
+  destruct Cz as (Zlo & Zup & Zbox). destruct Cx as (Xlo & Xup & Xbox).
+  assert (Vl2 : vec2 l2) by (rewrite El2, El1; apply vec2_set, vec2_set, Vl).
+  assert (Vu2 : vec2 u2) by (rewrite Eu2, Eu1; apply vec2_set, vec2_set, Vu).
+  assert (GL : get 0 l2 [0%Z] = (if neqb (get 0 p3 [0%Z]) (get 0 z [i]) then get 0 z [Z.max (i - 1) 0] else get 0 z [i]) /\
+               get 0 l2 [1%Z] = (if neqb (get 0 p3 [1%Z]) (get 0 x [j]) then get 0 x [Z.max (j - 1) 0] else get 0 x [j])).
+  { rewrite El2, El1. apply get_set2. exact Vl. }
+  assert (GU : get 0 u2 [0%Z] = get 0 z [Z.min (i + 1) (dim z 0%nat - 1)] /\
+               get 0 u2 [1%Z] = get 0 x [Z.min (j + 1) (dim x 0%nat - 1)]).
+  { rewrite Eu2, Eu1. apply get_set2. exact Vu. }
+  destruct GL as [GL0 GL1]. destruct GU as [GU0 GU1].
+  (* the buffer *)
+  destruct (ray_ok_set_sub zend xend max_step (c, d0, l, n0, p, r, u) p3 Rok Hlt Vp3)
+    as (R1 & R2 & R3 & R4 & R5 & R6).
+  cbn [s_count s_ray fst snd nofZ NumR] in R1, R2, R3, R4, R5, R6. rewrite <- Er in R1, R2, R3, R4, R5, R6.
+  unfold GInv. cbn [s_count s_delta s_lower s_nfree s_pcur s_ray s_upper fst snd].
+  rewrite GL0, GL1, GU0, GU1.
+  split. { destruct Rok as (Hc & _). cbn [s_count fst snd] in Hc. unfold ray_ok.
+           cbn [s_count s_ray fst snd nofZ NumR].
+           split; [lia|]. split; [exact R1|]. split; [exact R2|]. split; [exact R3|exact R4]. }
+  split; [exact Vp3|]. split; [exact Vd|]. split; [exact Vl2|]. split; [exact Vu2|].
+  split; [exact Zlo|]. split; [exact Zup|]. split; [exact Xlo|]. split; [exact Xup|].
+  split; [exact Zbox|]. split; [exact Xbox|].
+  intros k Hk. destruct (Z.eq_dec k c) as [->|Hne].
+  - unfold on_line. rewrite R5, R6. exact OnL.
+  - destruct Rok as (Hc & Hsh & Hwf & _). cbn [s_count s_ray fst snd] in Hc, Hsh, Hwf.
+    unfold on_line. rewrite Er.
+    rewrite !(get_set_sub_other 0 r p3 max_step 2 c k) by (auto; try lia; apply Vp3).
+    apply Rows. lia.
+Qed.
+
+(* a free step (factor >= 1): the point moves by the full step and stays in its cell *)
+Lemma free_step c d0 n0 d l p r u fac p0 p1 p2 :
+  GInv (c, d0, l, n0, p, r, u) ->
+  p2 = set p1 [1%Z] (pymin2 (pymax2 (get (nofZ 0) p1 [1%Z]) (get (nofZ 0) x [0%Z]))
+                            (get (nofZ 0) x [(dim x 0%nat - 1)%Z])) ->
+  p1 = set p0 [0%Z] (pymin2 (pymax2 (get (nofZ 0) p0 [0%Z]) (get (nofZ 0) z [0%Z]))
+                            (get (nofZ 0) z [(dim z 0%nat - 1)%Z])) ->
+  p0 = amap2 nsub p (amap (fun e : R => nmul fac e) d) ->
+  fac = FteikCommon.shrink p d l u ->
+  nltb fac (nofZ 1) = false ->
+  vec2 d ->
+  GInv (c, d, l, (n0 + 1)%Z, p2, r, u).
+Proof.
+  intros G Ep2 Ep1 Ep0 Efac Hfac Vd.
+  pose proof G as (Rok & Vp & _ & Vl & Vu & Gl0 & Gu0 & Gl1 & Gu1 & B0 & B1 & Rows).
+  cbn [s_count s_delta s_lower s_nfree s_pcur s_ray s_upper fst snd] in *.
+  pose proof (on_grid_hull _ _ _ Hz Gl0) as Hl0. pose proof (on_grid_hull _ _ _ Hz Gu0) as Hu0.
+  pose proof (on_grid_hull _ _ _ Hx Gl1) as Hl1. pose proof (on_grid_hull _ _ _ Hx Gu1) as Hu1.
+  unfold in_hull in Hl0, Hu0, Hl1, Hu1.
+  cbn [nltb nofZ NumR] in Hfac. apply Rltb_false in Hfac.
+  destruct (step_point p d fac Vp Vd) as (Vp0 & P00 & P01). rewrite <- Ep0 in Vp0, P00, P01.
+  destruct (get_nth2 p Vp) as [Np0 Np1]. destruct (get_nth2 d Vd) as [Nd0 Nd1].
+  destruct (get_nth2 l Vl) as [Nl0 Nl1]. destruct (get_nth2 u Vu) as [Nu0 Nu1].
+  assert (Fl : Forall2 Rle (dat l) (dat p)) by (apply vec2_Forall2; tauto).
+  assert (Fu : Forall2 Rle (dat p) (dat u)) by (apply vec2_Forall2; tauto).
+  rewrite Efac in Hfac. destruct (shrink_ge1_inside p d l u Fl Fu Hfac) as [E1 Hin].
+  rewrite <- Efac in E1.
+  pose proof (Hin 0%nat ltac:(rewrite (proj2 Vp); lia) ltac:(rewrite (proj2 Vd); lia)) as I0.
+  pose proof (Hin 1%nat ltac:(rewrite (proj2 Vp); lia) ltac:(rewrite (proj2 Vd); lia)) as I1.
+  rewrite <- Np0, <- Nd0, <- Nl0, <- Nu0 in I0. rewrite <- Np1, <- Nd1, <- Nl1, <- Nu1 in I1.
+  destruct (clamp2_R p0 Vp0) as (Vp2 & P20 & P21). cbv zeta in Vp2, P20, P21.
+  rewrite <- Ep1 in Vp2, P20, P21. rewrite <- Ep2 in Vp2, P20, P21.
+  rewrite clamp_R_id in P20 by (rewrite P00, E1; lra).
+  rewrite clamp_R_id in P21 by (rewrite P01, E1; lra).
+  unfold GInv. cbn [s_count s_delta s_lower s_nfree s_pcur s_ray s_upper fst snd].
+  split; [exact Rok|]. split; [exact Vp2|]. split; [exact Vd|]. split; [exact Vl|]. split; [exact Vu|].
+  split; [exact Gl0|]. split; [exact Gu0|]. split; [exact Gl1|]. split; [exact Gu1|].
+  rewrite P20, P21, P00, P01, E1. split; [lra|]. split; [lra|]. exact Rows.
+Qed.
+
+(* the initial state *)
+Lemma init_G :
+  in_hull z nz zend -> in_hull x nx xend -> (1 <= max_step)%Z ->
+  let i := (searchsorted_right z zend - 1)%Z in
+  let j := (searchsorted_right x xend - 1)%Z in
+  GInv (1%Z, full [2%Z] (nofZ 0),
+        of_list [if neqb zend (get (nofZ 0) z [i]) then get (nofZ 0) z [Z.max (i - 1) 0] else get (nofZ 0) z [i];
+                 if neqb xend (get (nofZ 0) x [j]) then get (nofZ 0) x [Z.max (j - 1) 0] else get (nofZ 0) x [j]],
+        0%Z, of_list [zend; xend],
+        set_sub (full [max_step; 2%Z] (nofZ 0)) [0%Z] (of_list [zend; xend]),
+        of_list [get (nofZ 0) z [Z.min (i + 1) (dim z 0%nat - 1)];
+                 get (nofZ 0) x [Z.min (j + 1) (dim x 0%nat - 1)]]).
+Proof.
+  intros Hzend Hxend Hms i j.
+  destruct (cell_facts_R z nz zend Az Hnz Hzend) as (Zlo & Zup & Zbox).
+  destruct (cell_facts_R x nx xend Ax Hnx Hxend) as (Xlo & Xup & Xbox).
+  fold i in Zlo, Zup, Zbox. fold j in Xlo, Xup, Xbox.
+  unfold GInv. cbn [s_count s_delta s_lower s_nfree s_pcur s_ray s_upper fst snd].
+  split. { apply ray_ok_init; try reflexivity; lia. }
+  split; [apply vec2_of_list|]. split; [apply vec2_full|]. split; [apply vec2_of_list|]. split; [apply vec2_of_list|].
+  split; [exact Zlo|]. split; [exact Zup|]. split; [exact Xlo|]. split; [exact Xup|].
+  split; [exact Zbox|]. split; [exact Xbox|]. intros k Hk. lia.
+Qed.
+
+(* after the loop *)
+Lemma final_G s1 zsrc xsrc nfm ray count :
+  GInv s1 -> fin2 zsrc xsrc max_step nfm s1 = Ok (ray, count) ->
+  forall k : Z, (1 <= k < count)%Z -> on_line ray k.
+Proof.
+  intros (Rok & _ & _ & _ & _ & _ & _ & _ & _ & _ & _ & Rows) Hf k Hk. unfold fin2 in Hf.
+  destruct ((max_step <=? s_count s1)%Z || _) eqn:Eb; injection Hf as <- <-; [lia|].
+  apply orb_false_elim in Eb. destruct Eb as [Eb _]. apply Z.leb_gt in Eb.
+  destruct Rok as (Hc & Hsh & Hwf & _). unfold on_line.
+  rewrite !(get_set_sub_other 0 (s_ray s1) (of_list [zsrc; xsrc]) max_step 2 (s_count s1) k)
+    by (auto; try lia; reflexivity).
+  apply Rows. exact Hk.
+Qed.
+End GridR.
+
+Lemma core_val_shape {A} (P : A -> Prop) (cz cx : bool) (a rest : A) :
+  P a -> (cz = true -> cx = true -> P rest) ->
+  P (let condz := cz in let condx := cx in if negb (condz && condx) then a else rest).
+Proof. intros Ha Hr. cbv zeta. destruct cz, cx; cbn [andb negb]; auto. Qed.
+
+Lemma rbind_while_post {S A} (G : S -> Prop) (cond : S -> bool) (body : S -> ctl S) (K : S -> res A)
+      fuel s0 (r : A) (C : Prop) :
+  G s0 -> (forall s, G s -> post G (body s)) -> (forall s1, G s1 -> K s1 = Ok r -> C) ->
+  rbind (while_fuel fuel cond body s0) K = Ok r -> C.
+Proof.
+  intros H0 Hstep HK Hr. destruct (while_fuel fuel cond body s0) as [s1| |] eqn:Ew; cbn [rbind] in Hr;
+    try discriminate.
+  apply (HK s1); [|exact Hr].
+  apply (while_fuel_inv cond body G G) with (4 := H0) (5 := Ew).
+  - intros s s' Hs _ Eb. pose proof (Hstep s Hs) as Hp. rewrite Eb in Hp. exact Hp.
+  - intros s s' Hs _ Eb. pose proof (Hstep s Hs) as Hp. rewrite Eb in Hp. exact Hp.
+  - auto.
+Qed.
+
+Section GridMain.
+Local Open Scope R_scope.
+Variables (z x zgrad xgrad : arr R) (nz nx : Z).
+Hypothesis (Az : axisn z nz) (Ax : axisn x nx) (Hnz : (1 <= nz)%Z) (Hnx : (1 <= nx)%Z).
+Hypothesis (Hz : axis_hull z nz) (Hx : axis_hull x nx).
+
+Ltac zeta_all t :=
+  lazymatch t with
+  | (let x := ?v in @?F x) =>
+      let v' := eval cbv beta zeta iota delta [u_ray2d_core_v_p1 fst snd] in v in
+      let t' := eval cbv beta in (F v') in
+      zeta_all t'
+  | _ => t
+  end.
+
+Ltac ghook x0 Hx :=
+  lazymatch type of Hx with _ = ?v =>
+    tryif is_var v then subst x0 else
+    lazymatch type of x0 with
+    | Z => lazymatch v with
+           | (searchsorted_right _ _ - 1)%Z => idtac
+           | _ => subst x0
+           end
+    | _ => idtac
+    end
+  end.
+
+Ltac vec2_chain :=
+  repeat (lazymatch goal with
+          | |- vec2 ?a => match goal with Ha : a = set _ _ _ |- _ => rewrite Ha; apply vec2_set end
+          end);
+  assumption.
+Ltac budget :=
+  match goal with
+  | E : ((_ <=? _)%Z || _) = false |- _ =>
+      apply orb_false_elim in E; destruct E as [E _]; apply Z.leb_gt in E; exact E
+  end.
+Ltac mbody :=
+  let ix := fresh "ix" in let q := fresh "q" in
+  intros ix q; cbv beta zeta;
+  repeat (match goal with |- context [if ?c then _ else _] => destruct c end); auto.
+
+Ltac gleaf Hs0 :=
+  idtac;
+  lazymatch goal with |- post ?Q (_ ?tup) => change (Q tup) end;
+  first
+  [ exact Hs0
+  | eapply vertex_step; first [ exact Hs0 | eassumption | vec2_chain | mbody | budget ]
+  | eapply free_step; first [ exact Hs0 | eassumption | vec2_chain ] ].
+
+Theorem ray2d_vertices_on_grid_lines fuel zend xend zsrc xsrc stepsize max_step ray count :
+  (1 <= max_step)%Z ->
+  u_ray2d_core_v fuel z x zgrad xgrad zend xend zsrc xsrc stepsize max_step true = Ok (ray, count) ->
+  forall k : Z, (1 <= k < count)%Z -> on_line z x nz nx ray k.
+Proof.
+  intros Hms.
+  cbv beta delta [u_ray2d_core_v].
+  lazymatch goal with |- ?t = ?r -> ?C => change ((fun v => v = r -> C) t) end.
+  apply core_val_shape.
+  - intros Hc. injection Hc as _ <-. intros k Hk. lia.
+  - intros Ez Ex. apply andb_prop in Ez, Ex. destruct Ez as [Ez1 Ez2]. destruct Ex as [Ex1 Ex2].
+    cbn [nleb nofZ NumR] in Ez1, Ez2, Ex1, Ex2. apply Rleb_true in Ez1, Ez2, Ex1, Ex2.
+    rewrite (dim_0 _ _ _ (proj1 Az)) in Ez2. rewrite (dim_0 _ _ _ (proj1 Ax)) in Ex2.
+    lazymatch goal with |- ?t = ?r -> ?C => let t' := zeta_all t in change_no_check (t' = r -> C) end.
+    intros Hc. refine (rbind_while_post (GInv z x nz nx zend xend max_step) _ _ _ _ _ _ _ _ _ _ Hc); clear Hc.
+    + apply init_G; try assumption; split; assumption.
+    + intros s Hs0. pose proof Hs0 as (_ & _ & Vd & _).
+      destruct s as [[[[[[c d] l] n] p] r] u].
+      cbn [s_delta fst snd] in Vd. cbv beta.
+      vwalk ghook ltac:(gleaf Hs0).
+    + intros s1 G1 HK.
+      exact (final_G z x nz nx zend xend max_step s1 zsrc xsrc (nfree_max2 z x stepsize) ray count G1 HK).
+Qed.
+End GridMain.
+
+(* an ascending axis satisfies axis_hull *)
+Lemma axis_hull_of_ascending (ax : arr R) n :
+  (forall i j : Z, 0 <= i <= j -> j < n -> (get 0%R ax [i] <= get 0%R ax [j])%R) -> axis_hull ax n.
+Proof. intros Hasc k Hk. split; apply Hasc; lia. Qed.
+
+Print Assumptions shrink_ok_true_gen.
+Print Assumptions shrink_ok_true.
+Print Assumptions ray2d_core_ok_true.
+Print Assumptions ray2d_ok_true.
+Print Assumptions ray2d_1_ok_true.
+Print Assumptions ray2d_core_ok_true_F.
+Print Assumptions ray2d_core_ok_true_R.
+Print Assumptions RayLawsR.
+Print Assumptions RayLawsF.
+Print Assumptions shrink_attained.
+Print Assumptions shrink_range.
+Print Assumptions shrink_ge1_inside.
+Print Assumptions vertex_on_grid_line_2d.
+Print Assumptions ray2d_vertices_on_grid_lines.
+Print Assumptions ray2d_core_ok_max_step_0_refuted.
+Print Assumptions ray2d_core_ok_axis_min_refuted.
